@@ -74,7 +74,18 @@ fn one_config(i: usize, seed: u64, reps: usize, thorough: bool, big: bool) -> Ou
         if r + 1 == reps {
             case.stall_after_send = Some(if big { (64 << 10, 120_000) } else { (4 << 10, 1_000) });
         }
+        // ... and, for the big configurations, with a slowed-down CPU inside the engine's loops: every
+        // instrumented site (per garbled row, per opened d-value, ...) costs 80 microseconds of real time
+        let slow_cpu = big && r + 1 == reps && crate::hooks::HOOKS_ON;
+        if slow_cpu {
+            crate::hooks::install_tap(Some(Box::new(|_site, _party, _idx, _value| {
+                std::thread::sleep(std::time::Duration::from_micros(80));
+            })));
+        }
         let ex = exec_mpc(case);
+        if slow_cpu {
+            crate::hooks::install_tap(None);
+        }
         if let RunEnd::HarnessError(e) = &ex.end {
             return Out { key, runs: r, msgs, ops, harness: Some(e.clone()), violation: None, sample };
         }
@@ -115,7 +126,7 @@ fn one_config(i: usize, seed: u64, reps: usize, thorough: bool, big: bool) -> Ou
 pub fn run(tier: &str, seed: u64) -> i32 {
     let thorough = tier == "thorough";
     let mut rep = Report::new("C09", tier, seed, "exploration");
-    rep.rule = "per public configuration (circuit, n, evaluator, output set, temp-file mask) R executions with inputs all-0, all-1 and random and fresh coins under one fixed schedule; per (party, peer) the sequence of (direction, byte length) must be identical; the last execution of every configuration runs under a perturbed wall clock (the sender stalls 1 ms of real time after every send of 4 KiB or more; for two (thorough: six) configurations with 2100..3000 AND gates 120 ms after every send of 64 KiB or more). distinct = configuration; non-trivial = at least two executions with different inputs were compared".into();
+    rep.rule = "per public configuration (circuit, n, evaluator, output set, temp-file mask) R executions with inputs all-0, all-1 and random and fresh coins under one fixed schedule; per (party, peer) the sequence of (direction, byte length) must be identical; the last execution of every configuration runs under a perturbed wall clock (the sender stalls 1 ms of real time after every send of 4 KiB or more; for two (thorough: six) configurations with 2100..3000 AND gates 120 ms after every send of 64 KiB or more, and every instrumented site inside the engine's loops - per garbled row, per opened value - costs 80 microseconds of real time). distinct = configuration; non-trivial = at least two executions with different inputs were compared".into();
     rep.assumptions = vec!["fixed round-robin schedule with immediate delivery so that the per-party operation order is a function of the code path only".into(), "timing itself is not observed; dependence of message boundaries on elapsed time is probed by the stalls only".into()];
     let (n_cfg, reps) = if thorough { (500, 12) } else { (120, 6) };
     let n_big = if thorough { 6 } else { 2 };
